@@ -148,7 +148,7 @@ inductive MarkPc where
   | start
   | wantLock
   | atCall                 -- parked before the underlying Get (or the single atomic put-if-absent call)
-  | atPut (fresh : Bool)   -- Get done (fresh = it missed), parked before the underlying Set
+  | atPut (fresh : Bool)   -- Get missed (fresh = true; a hit never leads here), parked before the underlying Set
   | done (o : Outcome)
   deriving DecidableEq, Repr, Inhabited
 
@@ -251,10 +251,7 @@ def stepMark (cfg : Cfg) (st : Store) (now : Nat) (lock : Option Nat) (i : Nat) 
         | none => (.done .ok, stPut st k e, lock))
      | _ =>
        match stGet cfg.expInclusive st now k with
-       | some _ =>
-         -- before PutIfAbsent existed, validateS2SPresentationNonce stored the nonce again after a hit
-         if r.kind = .s2s && cfg.mark r.kind = .getThenPut then (.atPut false, st, lock)
-         else (.done .used, st, unlock (cfg.markLocks r.kind) lock)
+       | some _ => (.done .used, st, unlock (cfg.markLocks r.kind) lock)
        | none => (.atPut true, st, lock))
   | .atPut fresh => (.done (if fresh then .ok else .used), stPut st k e, unlock (cfg.markLocks r.kind) lock)
   | .done o => (.done o, st, lock)
